@@ -476,6 +476,19 @@ func randRule(r *rand.Rand, o ProgOpts, p ProgramV, head PredSig, aggPreds map[s
 			all = sh
 		}
 	}
+	if o.MoreNegation && r.Intn(2) == 0 {
+		// negated atoms written first, in any order: the library moves each behind the premises that bind its variables
+		var negs, rest []LitV
+		for _, l := range all {
+			if l.K == "neg" {
+				negs = append(negs, l)
+			} else {
+				rest = append(rest, l)
+			}
+		}
+		r.Shuffle(len(negs), func(i, j int) { negs[i], negs[j] = negs[j], negs[i] })
+		all = append(negs, rest...)
+	}
 	cl.Body = all
 	return cl
 }
@@ -571,6 +584,9 @@ func randDoRule(r *rand.Rand, o ProgOpts, p ProgramV, head PredSig, aggPreds map
 	switch {
 	case red == "fn:count" && last == "num":
 		stmt = StmtV{Var: "R", Fn: FnT("fn:count")}
+	case red == "fn:collect_distinct" && last == "list" && len(c.vars["mix"]) > 0 && r.Intn(2) == 0:
+		// hash-equal constants of different kinds in one group: a set keeps them apart
+		stmt = StmtV{Var: "R", Fn: FnT("fn:collect_distinct", VarT(c.vars["mix"][r.Intn(len(c.vars["mix"]))]))}
 	case red == "fn:collect_distinct" && last == "list" && len(c.vars["num"]) > 0:
 		stmt = StmtV{Var: "R", Fn: FnT("fn:collect_distinct", VarT(c.vars["num"][r.Intn(len(c.vars["num"]))]))}
 	case last == "num" && len(c.vars["num"]) > 0 && red != "fn:collect_distinct" && red != "fn:count":
@@ -746,7 +762,7 @@ func RandClosureProgram(r *rand.Rand) ProgramV {
 		p.Rules = append(p.Rules, ClauseV{Head: at(me, "X", "Y"), Body: []LitV{at(edge, "X", "Y")}})
 		for k := 1 + r.Intn(3); k > 0; k-- {
 			var c ClauseV
-			switch r.Intn(7) {
+			switch r.Intn(8) {
 			case 0:
 				c = ClauseV{Head: at(me, "X", "Z"), Body: []LitV{at(me, "X", "Y"), at(me, "Y", "Z")}}
 			case 1:
@@ -759,6 +775,9 @@ func RandClosureProgram(r *rand.Rand) ProgramV {
 				c = ClauseV{Head: at(me, "Y", "X"), Body: []LitV{at(me, "X", "Y")}}
 			case 5:
 				c = ClauseV{Head: at(me, "X", "Z"), Body: []LitV{at(other, "X", "Y"), at(me, "Y", "Z")}}
+			case 6:
+				// same generation: the recursive atom is looked up with both arguments bound
+				c = ClauseV{Head: at(me, "X", "Y"), Body: []LitV{at(edge, "X", "V"), at(edge, "Y", "W"), at(me, "V", "W")}}
 			default:
 				c = ClauseV{Head: at(me, "X", "Z"), Body: []LitV{at(me, "X", "Y"), at(other, "Y", "Z"), at(me, "Z", "W")}}
 			}
